@@ -180,6 +180,20 @@ macro_rules! trace {
 
 /// Records that this execution ran into a bound of the harness (e.g. the
 /// horizon of a reachability exploration); reported as a cap in the evidence.
+/// Resident-set guard: `Some(cap)` when this process uses more than
+/// `DPMC_MAX_RSS_GB` GiB (default 20).  A scenario that trips it ends as
+/// *capped*, never as a verdict.
+fn rss_over_cap() -> Option<u64> {
+    let cap: u64 = std::env::var("DPMC_MAX_RSS_GB").ok().and_then(|v| v.parse().ok()).unwrap_or(20);
+    let statm = std::fs::read_to_string("/proc/self/statm").ok()?;
+    let pages: u64 = statm.split_whitespace().nth(1)?.parse().ok()?;
+    if pages * 4096 > cap << 30 {
+        Some(cap)
+    } else {
+        None
+    }
+}
+
 pub fn flag_cap(msg: &str) {
     CX.with(|c| {
         if let Some(cx) = c.borrow_mut().as_mut() {
@@ -785,6 +799,15 @@ fn worker<F: Fn() -> Outcome + Sync>(
                         }
                         shared.stop.store(true, Ordering::Relaxed);
                     }
+                }
+            }
+            if local.executions % 4096 == 0 {
+                if let Some(gb) = rss_over_cap() {
+                    let mut c = capped.lock().unwrap();
+                    if c.is_none() {
+                        *c = Some(format!("resident-memory cap reached ({} GiB)", gb));
+                    }
+                    shared.stop.store(true, Ordering::Relaxed);
                 }
             }
             // donate work when others are idle
